@@ -34,6 +34,8 @@ structure MdCfg where
   beforeParseHooks : List String := []   -- `md.before_parse_hooks`, by function name
   beforeRenderHooks : List String := []  -- `md.before_render_hooks`
   afterRenderHooks : List String := []   -- `md.after_render_hooks`
+  /-- directives registered with `renderer=None`: (parser rule name, fence markers, [(directive name, plugin class)]) -/
+  directives : List (String × String × List (String × String)) := []
 
 def ofRuleCfg (c : RuleCfg) : MdCfg :=
   { name := c.name, blockSpec := c.blockSpec, blockRules := c.block.map (·.1), quoteRules := c.quote.map (·.1),
@@ -41,7 +43,7 @@ def ofRuleCfg (c : RuleCfg) : MdCfg :=
     named := namedRx, groups := groupIndex, maxNested := c.maxNested, hardWrap := c.hardWrap,
     blockTags := blockTags, preTags := preTags,
     beforeParseHooks := c.beforeParseHooks, beforeRenderHooks := c.beforeRenderHooks,
-    afterRenderHooks := c.afterRenderHooks }
+    afterRenderHooks := c.afterRenderHooks, directives := c.directives }
 
 /-- a named module-level pattern (`.fail` if the working tree no longer has it: every use then declines) -/
 def MdCfg.rx (cfg : MdCfg) (name : String) : Rx := (cfg.named.lookup name).getD .fail
